@@ -12,6 +12,36 @@ CHECKS = {
          "Every T format up to length 4 (quick) / 6 (thorough) over an 11-symbol alphabet under >=14 binding environments, every Sprintf format up to length 5 / 7 over 7 symbols x 6 argument lists, plus seeded long random formats and Comment/GoDirective/Snippets/Fragments workloads, are rendered by the real code and compared (panic flag + bytes) with an independent reference. Held = no disagreement on the executions observed; not a proof for longer formats.",
          "Trusted: the reference renderer in harness/internal/props/c09 (80 lines, written from the statement) and Go's strconv.Quote for the expected value literals. A bare '@' is judged by a relaxed oracle (statement silent).",
          "DESIGN.md 4/C09"),
+ "C03": ("exploration",
+         "runtime monitor over the real import tracker/namer: seeded adversarial path sets x reference kinds, name-stability and exactness assertions after every render, and the Go type checker (go/types over fabricated packages) judging the assembled import block + references",
+         "Thousands of seeded path sets (clash families: std twins, 1-3 clashing trailing segments, vN, apis/domain, keywords, digits, punctuation/case twins, single-segment, the target itself) are referenced through 7 reference kinds via one SnippetWriter+tracker; after every render the names seen so far must be unchanged, qualifiers must equal Imports()[path], and at the end the import set must be exact, names distinct valid identifiers, and go/types must accept the file and resolve every reference to the intended type. Held = no disagreement on the executions observed.",
+         "Trusted: go/parser, go/types, the fabricated package universe (harness/typgen). No particular name is demanded. Paths whose last segment is a predeclared identifier are not generated.",
+         "DESIGN.md 4/C03"),
+ "C10": ("exploration",
+         "compiled-and-executed check program as oracle: seeded values rendered by the real dumper, compiled by the Go compiler into a test binary of the fixture package, evaluated and compared (canonical dump) with the originals",
+         "600 (quick) / 24000 (thorough) seeded values over ~110 root types with edge values are rendered via Value and Sprintf(%v) into a foreign and into the own package, parsed, compiled (all compiler errors attributed to cases by line), executed and compared with the originals; rendering is repeated in-process and in a second process for text determinism. Held = every literal compiled and evaluated to a deeply equal value of the same type on the values observed.",
+         "Trusted: the Go compiler, reflect, harness/dump (canonical dumper) and harness/valgen. Scalars are untyped constants by design, so assignability is what is required of them.",
+         "DESIGN.md 4/C10"),
+ "C11": ("exploration",
+         "the Go type checker as runtime judge: seeded closed type expressions rendered by the real dumper/namer from go/types types and from compiled reflect types, then type-checked and compared with types.Identical",
+         "Seeded type expressions up to depth 4/5 over the stated grammar, two routes (go/types over fabricated packages; reflect over a compiled catalogue incl. 17 generic instantiations and embedding structs), three target kinds (own package, other package, tracker with clashing names): the rendered text must type-check in `package target` with exactly the tracker's imports and denote an identical type; qualifiers must be the tracker names in order. Held on the expressions observed.",
+         "Trusted: go/types (Identical, Instantiate), go/parser, harness/typgen. Route A packages are fabricated; real-toolchain compilation of generated files is covered by the pipeline checks.",
+         "DESIGN.md 4/C11"),
+ "C15": ("exploration",
+         "exhaustive small-scope + seeded random differential monitor: reference strings generated from the grammar as trees; the real parser/printer/namer must reproduce the tree, the string and the expected import rewriting",
+         "All reference trees for (depth<=1,width<=3,5 paths,3 idents) and (depth<=2,width<=3,2 paths,1 ident) [quick], plus (depth<=3,width<=2) and a wider depth-2 space [thorough], plus seeded random trees up to depth 5/width 4: ParseTypeRef tree equality, String round trip, Walk pre-order, ParseRef/PkgImportPathAndExpose agreement, ID(s) rewriting and exact import registration. Exhaustive within the stated bounds, sampled beyond.",
+         "Trusted: the tree generator/printer in harness/internal/props/c15 (the grammar of the statement). Identifiers and path segments come from small fixed sets.",
+         "DESIGN.md 4/C15"),
+ "C19": ("exploration",
+         "exhaustive small-scope enumeration + seeded random inputs through the real Split/converters with invariant assertions, 8-goroutine purity comparison under the Go race detector, cross-process digests",
+         "Every string up to length 4 (quick) / 6 (thorough) over a 14-symbol alphabet (letters of all classes, digits, punctuation, title-case, invalid UTF-8) plus random long strings: Split never panics, words non-empty and concatenating to the input, invalid UTF-8 => [input]; each converter total, equal on repeat, equal across 8 concurrent goroutines (-race build) and across worker processes.",
+         "Trusted: the Go race detector (sees only the interleavings produced). golang.org/x/text is treated as part of the code under test.",
+         "DESIGN.md 4/C19"),
+ "C20": ("exploration",
+         "runtime monitoring of the real inflector: table-driven metamorphic oracle f(p+w)==p+f(w), totality/purity assertions, and recorded concurrent call histories checked directly, by porcupine (write-once register per key) and by the Go race detector",
+         "Every irregular / uninflected word x 3 case variants x 17 boundary prefixes x both operations, fold twins, non-ASCII and random inputs; 240 (quick) / 3000 (thorough) barrier rounds of 32 goroutines at GOMAXPROCS 2/4/16 with keys fresh to each round, -race build; history checked against sequentially known values and with porcupine. Evidence reports overlapping same-key call pairs and distinct completion orders observed.",
+         "Trusted: porcupine v1.3.0, the Go race detector, the prefix-preservation law taken from the statement. Word boundary = ASCII punctuation/space as in the statement.",
+         "DESIGN.md 4/C20"),
 }
 
 NOT_YET = {}
